@@ -3,6 +3,21 @@
 // "the set changes only by the owner adding an absent address or removing a present one" when the
 // storage key of the set gets another type or shape.
 use super::*;
+// named explicitly: the harness must not depend on which of these the file under verification happens to import
+use crate::error::ContractError;
+use crate::event;
+use axelar_soroban_std::ttl::extend_instance_ttl;
+use axelar_soroban_std::ensure;
+use axelar_soroban_std::interfaces;
+use axelar_soroban_std::Ownable;
+use axelar_soroban_std::Upgradable;
+use soroban_sdk::contract;
+use soroban_sdk::contractimpl;
+use soroban_sdk::Address;
+use soroban_sdk::Env;
+use soroban_sdk::Symbol;
+use soroban_sdk::Val;
+use soroban_sdk::Vec;
 use axelar_soroban_std::interfaces::OwnableInterface;
 use soroban_sdk::shim::{self, Wordy};
 
